@@ -154,6 +154,7 @@ struct SiteStats {
     std::uint64_t cases = 0, pass = 0, discard = 0, nontrivial = 0, distinct_nontrivial = 0, fails = 0;
     std::map<std::string, std::uint64_t> labels;
     std::map<std::string, std::uint64_t> failclasses;  // enum mode: every unlisted failure counted by class
+    std::map<std::string, std::pair<std::uint64_t, std::uint64_t>> regions;  // oracle-side cause region -> (passes, failures) inside it
     std::map<std::string, std::uint64_t> excluded;  // known-finding id -> hits
     std::map<std::string, std::string> excluded_example;  // id -> first described case
     std::vector<std::string> samples;
@@ -162,8 +163,16 @@ struct SiteStats {
 };
 static std::unordered_set<std::uint64_t> g_seen;
 
+static void account_region(SiteStats& st, Outcome const& o)
+{
+    if (o.region.empty() || o.kind == Outcome::DISCARD) return;
+    auto& r = st.regions[o.region];
+    ++(o.kind == Outcome::PASS ? r.first : r.second);
+}
+
 static void account(std::size_t si, SiteStats& st, Outcome const& o, bool enumerating)
 {
+    account_region(st, o);
     ++st.cases;
     if (o.kind == Outcome::DISCARD) {
         ++st.discard;
@@ -209,6 +218,13 @@ static void write_result(std::string const& path, std::string const& mode, std::
             if (!f2) o << ",";
             f2 = false;
             o << "\"" << jesc(kv.first) << "\":" << kv.second;
+        }
+        o << "},\"regions\":{";
+        f2 = true;
+        for (auto const& kv : s.regions) {
+            if (!f2) o << ",";
+            f2 = false;
+            o << "\"" << jesc(kv.first) << "\":[" << kv.second.first << "," << kv.second.second << "]";
         }
         o << "},\"excluded\":{";
         f2 = true;
@@ -410,6 +426,7 @@ int main(int argc, char** argv)
                     Words w{words.data(), words.size(), 0};
                     site.run(w, o, nullptr);
                     if (o.kind == Outcome::FAIL) {
+                        if (!shrinking) account_region(st, o);
                         if (Known const* k = match_known(site.name, o.fclass)) {
                             if (!shrinking) {
                                 ++st.cases;
@@ -470,6 +487,7 @@ int main(int argc, char** argv)
                 Words w{words.data(), words.size(), 0};
                 site.run(w, o, nullptr);
                 if (o.kind == Outcome::FAIL) {
+                    account_region(st, o);
                     ++st.cases;
                     ++st.fails;
                     ++st.failclasses[o.fclass];
@@ -504,6 +522,7 @@ int main(int argc, char** argv)
                 Outcome o;
                 site.run_enum(idx, o, nullptr);
                 if (o.kind == Outcome::FAIL) {
+                    account_region(st, o);
                     ++st.cases;
                     if (Known const* k = match_known(site.name, o.fclass)) {
                         if (st.excluded[k->id]++ == 0) {
